@@ -497,9 +497,10 @@ macro_rules! c10_tree_float {
     };
 }
 //@ id: c10_tree_f32_l3_exact
+//@ besteffort: yes
 //@ prop: C10
-//@ tier: quick
-//@ cap: 900
+//@ tier: thorough
+//@ cap: 3600
 //@ funcs: WeightedTreeIndex::<f32>::new; try_sample (incl. its two internal assert!s); get; rand UniformFloat::<f32>::sample_single
 //@ bounds: 3 f32 weights that are integers <= 2^20 (all subtotals exact); every word
 //@ assumes: weights outside this class are the region of known finding tree_float_assert (decided by the witness harness)
@@ -512,3 +513,34 @@ c10_tree_float!(c10_tree_f32_l3_exact, f32, 3, 0);
 //@ funcs: WeightedTreeIndex::<f32>::try_sample
 //@ bounds: 3 f32 weights in [0, 1e30], not all small integers
 c10_tree_float!(c10_tree_f32_l3_kf_rounding, f32, 3, 1);
+
+// ------------------------------------------------------------------------------------------
+// C09, wider integer types (totals near u64::MAX / i64::MAX / u32::MAX)
+// ------------------------------------------------------------------------------------------
+
+//@ id: c09_ops_u64_l3
+//@ prop: C09
+//@ tier: quick
+//@ cap: 900
+//@ funcs: WeightedTreeIndex::<u64>::new; push; pop; update; get; len; is_valid
+//@ bounds: every u64 weight list of length 3 (new), arbitrary valid pre-state of length 3 (push, pop, update)
+//@ assumes: pre-state invariant; spare capacity
+proofs! { c09_ops_u64_l3 => 8, 15, [h_new::<u64, 3>(), h_push::<u64, 3, 4>(), h_pop::<u64, 3, 2>(), h_update::<u64, 3>()]; }
+
+//@ id: c09_ops_i64_l4
+//@ prop: C09
+//@ tier: quick
+//@ cap: 900
+//@ funcs: WeightedTreeIndex::<i64>::new; push; update
+//@ bounds: every i64 weight list of length 4 (new), arbitrary valid pre-state of length 4 (push, update); negative weights rejected
+//@ assumes: pre-state invariant; spare capacity
+proofs! { c09_ops_i64_l4 => 8, 15, [h_new::<i64, 4>(), h_push::<i64, 4, 5>(), h_update::<i64, 4>()]; }
+
+//@ id: c09_ops_u32_l5
+//@ prop: C09
+//@ tier: quick
+//@ cap: 900
+//@ funcs: WeightedTreeIndex::<u32>::new; push; pop; update
+//@ bounds: length 5, u32 weights
+//@ assumes: pre-state invariant; spare capacity
+proofs! { c09_ops_u32_l5 => 9, 15, [h_new::<u32, 5>(), h_push::<u32, 5, 6>(), h_pop::<u32, 5, 4>(), h_update::<u32, 5>()]; }
